@@ -1,5 +1,5 @@
-(* C05 - property theorems only (proofs in Server/StepLemmas.v, Server/Events.v) *)
-From VT Require Import Server.Events.
+(* C05 - property theorems only (proofs in Server/StepLemmas.v, Server/Events.v, Server/EventsX.v) *)
+From VT Require Import Server.Events Server.EventsX.
 Open Scope N_scope.
 
 (* complete case analysis of _handle_event/_handle_event_internal on every state *)
@@ -98,3 +98,73 @@ Theorem C05_model_passes_checker_all : forall c,
   has_actions c = false -> forall ops s, all_steps (c05_step c) c s ops (snd (run c s ops)) = true.
 Proof. exact model_passes_c05_all. Qed.
 Print Assumptions C05_model_passes_checker_all.
+
+(* ---- the re-entrant scenario of Server/ServerX.v: an event handler ends its own client's
+        connection (sio.disconnect(sid, ns)) before it returns ---- *)
+
+(* Prop-level characterisation: one invocation, the DISCONNECT frame, the disconnect handler
+   (SERVER_DISCONNECT), then the ACK to the same transport; afterwards the sid is gone *)
+Theorem C05_event_self_disconnect : forall c eio pn id data s ev args sid h a b v dh pre db dv,
+  has_actions c = false -> MOK (mg s) ->
+  split_event data = Ok (ev, args) -> is_unhashable ev = false -> is_disconnect ev = false ->
+  sid_from_eio (mg s) eio (ns_or_default pn) = Some sid ->
+  is_connected (mg s) (Some sid) (ns_or_default pn) = true ->
+  responsible c ev (ns_or_default pn) (PStr sid :: args) = Some (Some h, a) ->
+  aget N.eqb (behav c) h = Some b -> arity_bad b (List.length a) = false -> h_outcome b = Returns v ->
+  responsible c ev_disconnect (ns_or_default pn) [] = Some (Some dh, pre) ->
+  aget N.eqb (behav c) dh = Some db -> h_outcome db = Returns dv ->
+  arity_bad db (List.length (disc_args sid r_server_disconnect db pre)) = false ->
+  let ns := ns_or_default pn in
+  let s' := disc_state s sid ns in
+  handle_event_sd c eio pn id data s =
+  (s', [Call h a] ++ sp_effs s eio (frames_of c DISCONNECT PNone ns None)
+       ++ [Call dh (disc_args sid r_server_disconnect db pre)] ++ ack_effs c s eio ns id v,
+   ack_res c ns id v) /\
+  is_connected (mg s') (Some sid) ns = false /\ eio_from_sid (mg s') sid ns = None /\
+  sid_from_eio (mg s') eio ns = None.
+Proof. exact event_self_disconnect. Qed.
+Print Assumptions C05_event_self_disconnect.
+
+(* general form (any disconnect handler, or none): the ACK is sent iff the disconnect did not raise *)
+Theorem C05_event_self_disconnect_general : forall c eio pn id data s ev args sid h a b v,
+  has_actions c = false -> MOK (mg s) ->
+  split_event data = Ok (ev, args) -> is_unhashable ev = false -> is_disconnect ev = false ->
+  sid_from_eio (mg s) eio (ns_or_default pn) = Some sid ->
+  is_connected (mg s) (Some sid) (ns_or_default pn) = true ->
+  responsible c ev (ns_or_default pn) (PStr sid :: args) = Some (Some h, a) ->
+  aget N.eqb (behav c) h = Some b -> arity_bad b (List.length a) = false -> h_outcome b = Returns v ->
+  let ns := ns_or_default pn in
+  handle_event_sd c eio pn id data s =
+  (disc_state s sid ns,
+   Call h a :: sd_disc_effs c s eio sid ns ++
+     match sd_disc_res c sid ns with Ok _ => ack_effs c s eio ns id v | Err _ => [] end,
+   match sd_disc_res c sid ns with Ok _ => ack_res c ns id v | Err x => Err x end).
+Proof. exact handle_event_sd_returns. Qed.
+Print Assumptions C05_event_self_disconnect_general.
+
+(* executable form; the two premises beyond has_actions are needed (C05_sd_checker_domain_refuted) *)
+Theorem C05_sd_model_passes_checker : forall c s eio payload tbl,
+  has_actions c = false -> MOK (mg s) -> sd_domain c ->
+  c05_sd_step c s eio payload tbl (snd (xstep c s (EventSD eio payload tbl))) = true.
+Proof. exact model_passes_c05_sd_step. Qed.
+Print Assumptions C05_sd_model_passes_checker.
+
+Theorem C05_sd_invariant_step : forall c s x, Inv s -> Inv (fst (xstep c s x)).
+Proof. exact xstep_Inv. Qed.
+Print Assumptions C05_sd_invariant_step.
+
+Theorem C05_sd_model_passes_checker_all : forall c,
+  has_actions c = false -> sd_domain c ->
+  forall ops s, Inv s -> xall_steps c s ops (snd (xrun c s ops)) = true.
+Proof. exact model_passes_c05x_all. Qed.
+Print Assumptions C05_sd_model_passes_checker_all.
+
+Theorem C05_sd_checker_domain_refuted :
+  (exists c s eio payload tbl, Inv s /\ has_actions c = false /\
+     c05_sd_step c s eio payload tbl (snd (xstep c s (EventSD eio payload tbl))) = false) /\
+  (exists c s eio payload tbl, Inv s /\ has_actions c = false /\
+     (forall ns ev args h a, reserved ev = false -> responsible c ev ns args = Some (Some h, a) ->
+                             hid_for c ev_disconnect ns <> Some h) /\
+     c05_sd_step c s eio payload tbl (snd (xstep c s (EventSD eio payload tbl))) = false).
+Proof. exact c05_sd_step_domain_refuted. Qed.
+Print Assumptions C05_sd_checker_domain_refuted.
